@@ -76,7 +76,7 @@ def setter_effects(lib):
             me = mir.norm(p).split("::")[-1]
             for bb, t, name, info in mir.calls(b):
                 callee = mir.norm(name or "").split("::")[-1]
-                if name in lib.bodies and callee in out and callee != me and t["args"] and t["args"][0].get("k") in ("move", "copy") and t["args"][0]["place"]["l"] == 1:
+                if name in lib.bodies and callee in out and callee != me and t["args"] and t["args"][0].get("k") in ("move", "copy") and (t["args"][0]["place"]["l"] == 1 or sym.expr(b, t["args"][0])[:2] == ("arg", 1)):
                     cur = out.setdefault(me, {})
                     for fld, kind in out[callee].items():
                         if cur.get(fld) != kind and cur.get(fld) != "update":
@@ -233,6 +233,23 @@ def counters_rule(run, u, g, mux):
         run.check(not (per_write["write_video"] & per_write["write_audio"]), "R7", "video and audio counters distinct", "different fields", "video and audio frames are counted in the same field %s" % sorted(per_write["write_video"] & per_write["write_audio"]))
 
 
+
+def sink_is_file(run, b, t, R):
+    """the sink the CLI hands to the library is the created File itself (through `?` / context adaptors only): a buffering adaptor
+    (BufWriter, LineWriter, a wrapper type) defers the write, so a failing write is reported after finish() returned Ok - or, when
+    the adaptor is dropped, not at all - and the command reports completion for a file that was not written"""
+    x = sym.expr(b, t["args"][0])
+    while True:
+        if x[0] == "proj":
+            x = x[1]
+        elif x[0] == "call" and x[2] and x[1].rsplit("::", 1)[-1] in ("branch", "with_context", "context", "map_err", "expect", "unwrap"):
+            x = x[2][0]
+        else:
+            break
+    good = x[0] == "call" and x[1] in ("std::fs::File::create", "std::fs::File::create_new", "std::fs::OpenOptions::open")
+    run.check(good, R, "sink-is-the-file", "the library writes into the File itself", "the library's sink is `%s`, not the created file itself: writes are deferred by the adaptor, so a write failure is no longer "
+              "reported by finish() (it surfaces later or is dropped) and the command can report completion for an incomplete file" % sym.show(x)[:100], mir.loc_of(t))
+
 def check(prog, run):
     run.rule("R1", "the output File flows only into the library builder; no other filesystem write in the mux command")
     run.rule("R2", "builder/muxer arguments are sourced from the matching CLI option (documented defaults); single frame at t=0, key=true")
@@ -266,6 +283,8 @@ def check(prog, run):
             # the chain create -> with_context -> ? -> local: every link is single-use
             ok = ok and news[0][1]["args"][0]["k"] == "move"
     run.check(ok, "R1", "file-into-builder", "MuxerBuilder::new(File::create(output)?)", "the created output file is not handed (only) to the library builder")
+    if len(news) == 1:
+        sink_is_file(run, b, news[0][1], "R1")
     reach = g.reach([mux])
     writers = []
     for f_ in reach:
@@ -327,6 +346,28 @@ def check(prog, run):
             e = sym.expr(hb, t["args"][2])
             good = any(isinstance(t_, tuple) and t_ and t_[0] == "call" and t_[1].endswith("read_hex_bytes") for t_ in sym.walk(e))
             run.check(good, "R2", "%s payload" % helper, "payload = read_hex_bytes(file content)", "%s payload is %s" % (helper, sym.show(e)[:100]))
+            # ... and nothing but the decoded bytes: only borrows / exact copies between the decoder and the library call, and the
+            # decoded vector is never borrowed mutably (no trimming, skipping, patching of the frame in the CLI)
+            x = e
+            while True:
+                if x[0] in ("ref", "copy"):
+                    x = x[1]
+                elif x[0] == "call" and len(x[2]) == 1 and x[1].rsplit("::", 1)[-1] in ("deref", "as_slice", "as_ref", "borrow", "clone", "to_vec", "to_owned"):
+                    x = x[2][0]
+                else:
+                    break
+            whole = x[0] == "call" and x[1].endswith("read_hex_bytes")
+            mutated = False
+            if whole and isinstance(x[-1], int):
+                term = hb["blocks"][x[-1]].get("term") or {}
+                dest = (term.get("dest") or {}).get("l")
+                for blk in hb["blocks"]:
+                    for st in blk["stmts"]:
+                        if st["k"] == "assign" and st["rv"]["k"] in ("ref", "rawptr") and st["rv"].get("mut") and st["rv"]["place"]["l"] == dest:
+                            mutated = True
+            run.check(whole and not mutated, "R2", "%s payload verbatim" % helper, "the decoded bytes themselves (borrowed or copied whole), never modified",
+                      "%s hands the library %s: not the decoded file content itself, so the file differs from the library's output for the same input" % (
+                          helper, ("the decoded vector after modifying it in place" if whole else sym.show(e)[:140])), mir.loc_of(t))
     # ---- R3
     dom = mir.dominators(b)
     fin = [(bb, t) for bb, t, name, info in mir.calls(b) if name and mir.norm(name) == LIB + "Muxer::finish"]
